@@ -368,7 +368,15 @@ fn read_corpus(path: &str) -> Option<Hist> {
             if let (Some(i), Some(n)) = (it.next().and_then(|x| x.parse::<usize>().ok()), it.next()) { given.push((i, n.to_string())); }
             in_src = false; continue;
         }
-        if let Some(r) = line.strip_prefix("#sourcehex ") {
+        if let Some(r) = line.strip_prefix("#srcnamehex ") {
+            let mut it = r.splitn(2, ' ');
+            if let (Some(i), Some(hx)) = (it.next().and_then(|x| x.parse::<usize>().ok()), it.next()) {
+                let bytes: Vec<u8> = (0..hx.trim().len() / 2).filter_map(|k| u8::from_str_radix(&hx.trim()[2 * k..2 * k + 2], 16).ok()).collect();
+                given.push((i, String::from_utf8_lossy(&bytes).to_string()));
+            }
+            in_src = false; continue;
+        }
+        if let Some(r) = line.strip_prefix("#sourcehex") {
             // exact bytes (CR, trailing blanks, missing final newline survive the corpus file)
             let bytes: Vec<u8> = (0..r.trim().len() / 2).filter_map(|k| u8::from_str_radix(&r.trim()[2 * k..2 * k + 2], 16).ok()).collect();
             pool.push(String::from_utf8_lossy(&bytes).to_string());
